@@ -141,13 +141,20 @@ def run_case(desc):
     sh = desc["shift"]
     shifted = [x + sh for x in cfg["grid"]]
     lt_s = cfg["lt"]
-    r, _ = run_model(cfg, u, grid=shifted)
-    runs += 1
-    for k in KEYS:
-        d = float(np.max(np.abs(r[k] - base[k])))
-        require(d <= tol * 10, f"calendar-shift-changes-result-{kind}", f"{k}: shift by {sh} changes results by {d:.3g}")
+    # a fixed lifetime is a step function: on a grid that is not exactly representable (0.1, 0.2, ...) an age that
+    # ties with the lifetime is rounded differently after the shift, which is float arithmetic and not the model
+    dyadic = all(float(x) * 8 == int(float(x) * 8) and abs(x) < 2**20 for x in cfg["grid"])
+    shift_cl = []
+    if lt_s["cls"] == "FixedLifetime" and not dyadic:
+        shift_cl = ["calendar-shift-skipped:step-function-on-inexact-grid"]
+    else:
+        r, _ = run_model(cfg, u, grid=shifted)
+        runs += 1
+        for k in KEYS:
+            d = float(np.max(np.abs(r[k] - base[k])))
+            require(d <= tol * 10, f"calendar-shift-changes-result-{kind}", f"{k}: shift by {sh} changes results by {d:.3g}")
 
-    cl = classes_of(cfg) + [f"runs:{min(runs // 10 * 10, 60)}"]
+    cl = classes_of(cfg) + [f"runs:{min(runs // 10 * 10, 60)}"] + shift_cl
     nontrivial = (len(shape) > 1 and int(np.prod(shape[1:])) >= 2 and sg.lt_varies(cfg["lt"])) or sg.grid_kind(cfg["grid"]) == "uneven"
     return {"nontrivial": nontrivial, "classes": cl}
 
